@@ -9,7 +9,7 @@ from vlib.engine import Outcome
 
 PROPERTY = 'C20'
 RULE = ('(transfer) a real BTP-U agent segments a generated bundle (1..20000 octets, lengths around mtu-4 and mtu-18) with '
-        'mtu_default from {None, 64, 65, 100, 300, 1500, 9000} and transfer numbers across 2^8 / 2^16 / 2^32-1 through its '
+        'mtu_default from {None, 64, 65, 100, 300, 1500, 9000} or any value in 24..400 and transfer numbers across 2^8 / 2^16 / 2^32-1 through its '
         'real _send_transfer; every frame is parsed by an independent BTP-U parser (type, flags, 20-bit length, hint '
         'chain): declared lengths == actual lengths, frame <= MTU, MessageSet(frame) re-encodes to the same octets, segment '
         'payloads concatenated by index == bundle, the last is a Transfer End with the highest index.  The frames are then '
@@ -110,7 +110,7 @@ def repo_to_ref(pkt):
 
 @st.composite
 def transfer_cases(draw):
-    mtu = draw(st.sampled_from([None, 64, 65, 100, 300, 1500, 9000]))
+    mtu = draw(st.one_of(st.sampled_from([None, 64, 65, 100, 300, 1500, 9000]), st.integers(24, 400)))
     if mtu is None:
         length = draw(st.one_of(st.sampled_from([1, 2, 255, 256, 65535, 65536]), st.integers(1, 20000)))
     else:
